@@ -601,3 +601,112 @@ package cose
 //@   loop 1 invariant seen_unique [C13]: forall k1 any, k2 any :: k1 in seen && k2 in seen && isIntKey(k1) && isIntKey(k2) && intOf(k1) == intOf(k2) ==> k1 == k2
 //@   loop 1 invariant seen_dom [C13]: forall k any :: k in seen ==> k in h
 //@   modifies frame [C18]: nothing
+
+// ===================================================================
+// decoding  (C05, C07, C09, C19)
+//   dec_shape_err / dec_elem / dec_map_* / dec_labels_err are the assumed contract of the CBOR library
+// ===================================================================
+
+//@ func (*byteString).UnmarshalCBOR
+//@   ensures iff [C05, C07]: err == nil <==> (s != nil && len(data) > 0 && (bytes(data) == byte1(246) || (b_major(bytes(data)) == 2 && bstr_wf(bytes(data)))))
+//@   ensures nil_case [C05, C09]: err == nil && bytes(data) == byte1(246) ==> *s == nil
+//@   ensures value [C05, C09, C19]: err == nil && bytes(data) != byte1(246) ==> *s != nil && bytes(*s) == bstr_content(bytes(data)) && fresh(*s)
+//@   ensures err_frame [C19]: err != nil && s != nil ==> *s == old(*s)
+//@   modifies frame [C18, C19]: *s
+
+// the protected bucket p is what the decoder makes of the wire bytes raw (a bstr that is empty or wraps one map)
+//@ spec protDecoded(raw Bytes, p ProtectedHeader) Bool = bstr_wf(raw) && b_major(raw) == 2 && p != nil
+//@       && (blen(bstr_content(raw)) == 0 ==> len(p) == 0)
+//@       && (blen(bstr_content(raw)) > 0 ==> b_major(bstr_content(raw)) == 5 && dec_labels_err(decMode, bstr_content(raw)) == nil
+//@             && dec_shape_err(decMode, bstr_content(raw), "map[any]any") == nil
+//@             && mapdom(asmap(p)) == dec_map_dom(decMode, bstr_content(raw))
+//@             && Rules(asmap(p), true) && int64Labels(asmap(p)))
+
+//@ func (*ProtectedHeader).UnmarshalCBOR
+//@   ensures accept [C04, C05, C13]: err == nil ==> h != nil && protDecoded(bytes(data), *h) && fresh(*h)
+//@   ensures alg_typed [C04]: err == nil ==> (forall k any :: k in asmap(*h) && isIntKey(k) && intOf(k) == 1 && algIsInt(asmap(*h)[k]) ==>
+//@         asmap(*h)[k] is Algorithm && algIsInt(dec_map_val(decMode, bstr_content(bytes(data)))[k]) && algInt(asmap(*h)[k]) == algInt(dec_map_val(decMode, bstr_content(bytes(data)))[k]))
+//@   ensures values_kept [C04, C05, C09]: err == nil && blen(bstr_content(bytes(data))) > 0 ==> (forall k any :: k in asmap(*h) && !(isIntKey(k) && intOf(k) == 1) ==>
+//@         asmap(*h)[k] == dec_map_val(decMode, bstr_content(bytes(data)))[k])
+//@   ensures err_frame [C19]: err != nil && h != nil ==> *h == old(*h)
+//@   modifies frame [C18, C19]: *h
+
+// what the Signature / Countersignature decoder establishes (also used for nested countersignatures)
+//@ spec headersDecoded(h Headers) Bool = protDecoded(bytes(h.RawProtected), h.Protected) && unprotDecoded(bytes(h.RawUnprotected), h.Unprotected) && CrossIV(h.Protected, h.Unprotected)
+//@ spec unprotDecoded(raw Bytes, u UnprotectedHeader) Bool = blen(raw) > 0 && b_major(raw) == 5 && dec_labels_err(decMode, raw) == nil
+//@       && dec_shape_err(decMode, raw, "map[any]RawMessage") == nil && u != nil
+//@       && (forall k any :: (k in asmap(u)) <==> dec_map_dom(decMode, raw)[k]) && Rules(asmap(u), false) && int64Labels(asmap(u))
+//@ spec sigDecoded(b Bytes, s *Signature) Bool = s != nil && bat(b, 0) == 131 && dec_shape_err(decModeWithTagsForbidden, b, "github.com/veraison/go-cose.signature") == nil
+//@       && len(s.Signature) > 0 && bytes(s.Headers.RawProtected) == dec_elem(b, 0) && bytes(s.Headers.RawUnprotected) == dec_elem(b, 1)
+//@       && b_major(dec_elem(b, 2)) == 2 && bstr_wf(dec_elem(b, 2)) && bytes(s.Signature) == bstr_content(dec_elem(b, 2))
+//@       && headersDecoded(s.Headers)
+
+//@ func unmarshalAsAny
+//@   ensures ok [C05]: err == nil ==> dec_val_ok(result) && result == dec_any(decMode, bytes(value))
+//@   ensures err_nil: err != nil ==> result == nil
+//@   modifies frame [C18]: nothing
+
+//@ func unmarshalAsCountersignature
+//@   ensures kinds [C05, C13]: err == nil ==> (result is *Countersignature && result.(*Countersignature) != nil && fresh(result.(*Countersignature))) || result is []*Countersignature
+//@   ensures err_nil: err != nil ==> result == nil
+//@   modifies frame [C18]: nothing
+
+//@ func unmarshalUnprotected
+//@   ensures kinds [C05, C13]: err == nil ==> (result is *Countersignature && result.(*Countersignature) != nil) || result is []*Countersignature || dec_val_ok(result)
+//@   ensures csig_only_at_7_11 [C05, C13]: err == nil && !(isIntKey(key) && (intOf(key) == 7 || intOf(key) == 11)) ==> dec_val_ok(result)
+//@   ensures err_nil: err != nil ==> result == nil
+//@   modifies frame [C18]: nothing
+
+//@ func (*UnprotectedHeader).UnmarshalCBOR
+//@   ensures accept [C05, C13]: err == nil ==> h != nil && unprotDecoded(bytes(data), *h) && fresh(*h)
+//@   ensures err_frame [C19]: err != nil && h != nil ==> *h == old(*h)
+//@   modifies frame [C18, C19]: *h
+//@   loop 1 invariant keys_copied: forall k any :: (k in header) <==> (k in seen)
+//@   loop 1 invariant seen_dom: forall k any :: k in seen ==> k in ranged
+//@   loop 1 invariant len_ok: len(header) >= 0
+
+//@ func (*Headers).UnmarshalFromRaw
+//@   requires nonnil: h != nil
+//@   ensures ok [C05, C13]: err == nil ==> headersDecoded(*h) && fresh(h.Protected) && fresh(h.Unprotected)
+//@   ensures raw_kept [C09, C19]: h.RawProtected == old(h.RawProtected) && h.RawUnprotected == old(h.RawUnprotected)
+//@   modifies frame [C18, C19]: h.Protected, h.Unprotected
+
+//@ func (*Signature).UnmarshalCBOR
+//@   ensures accept [C05, C09]: err == nil ==> sigDecoded(bytes(data), s)
+//@   ensures no_alias [C19]: err == nil ==> fresh(s.Headers.RawProtected) && fresh(s.Headers.RawUnprotected) && fresh(s.Signature) && fresh(s.Headers.Protected) && fresh(s.Headers.Unprotected)
+//@   ensures err_frame [C19]: err != nil && s != nil ==> *s == old(*s)
+//@   modifies frame [C18, C19]: *s
+
+// b is a COSE_Sign1 4-array (without tag) accepted by the library in the tags-forbidden mode, and m is what the decoder made of it
+//@ spec sign1Decoded(b Bytes, m *Sign1Message) Bool = m != nil && bat(b, 0) == 132
+//@       && dec_shape_err(decModeWithTagsForbidden, b, "github.com/veraison/go-cose.sign1Message") == nil
+//@       && len(m.Signature) > 0 && bytes(m.Headers.RawProtected) == dec_elem(b, 0) && bytes(m.Headers.RawUnprotected) == dec_elem(b, 1)
+//@       && (dec_elem(b, 2) == byte1(246) ? m.Payload == nil : (m.Payload != nil && b_major(dec_elem(b, 2)) == 2 && bstr_wf(dec_elem(b, 2)) && bytes(m.Payload) == bstr_content(dec_elem(b, 2))))
+//@       && b_major(dec_elem(b, 3)) == 2 && bstr_wf(dec_elem(b, 3)) && bytes(m.Signature) == bstr_content(dec_elem(b, 3))
+//@       && headersDecoded(m.Headers)
+//@ spec sign1Fresh(m *Sign1Message) Bool = fresh(m.Headers.RawProtected) && fresh(m.Headers.RawUnprotected) && fresh(m.Signature) && (m.Payload != nil ==> fresh(m.Payload))
+//@       && fresh(m.Headers.Protected) && fresh(m.Headers.Unprotected)
+
+//@ func (*Sign1Message).doUnmarshal
+//@   requires nonnil: m != nil
+//@   ensures accept [C05, C09]: err == nil ==> len(data) > 0 && (bat(bytes(data), 0) == 132 ==> sign1Decoded(bytes(data), m))
+//@         && dec_shape_err(decModeWithTagsForbidden, bytes(data), "github.com/veraison/go-cose.sign1Message") == nil
+//@   ensures no_alias [C19]: err == nil ==> sign1Fresh(m)
+//@   ensures err_frame [C19]: err != nil ==> *m == old(*m)
+//@   modifies frame [C18, C19]: *m
+
+//@ func (*Sign1Message).UnmarshalCBOR
+//@   ensures accept [C05, C09]: err == nil ==> m != nil && len(data) >= 2 && bat(bytes(data), 0) == 210 && sign1Decoded(bytes(data[1:]), m)
+//@   ensures no_alias [C19]: err == nil ==> sign1Fresh(m)
+//@   ensures err_frame [C19]: err != nil && m != nil ==> *m == old(*m)
+//@   modifies frame [C18, C19]: *m
+
+//@ func (*UntaggedSign1Message).UnmarshalCBOR
+//@   ensures accept [C05, C09]: err == nil ==> m != nil && sign1Decoded(bytes(data), m)
+//@   ensures err_frame [C19]: err != nil && m != nil ==> *m == old(*m)
+//@   modifies frame [C18, C19]: *m
+
+//@ func (*Countersignature).UnmarshalCBOR
+//@   ensures accept [C05, C09]: err == nil ==> sigDecoded(bytes(data), s)
+//@   ensures err_frame [C19]: err != nil && s != nil ==> *s == old(*s)
+//@   modifies frame [C18, C19]: *s
